@@ -29,7 +29,9 @@
   * `c13_declarator_of_lexeme`    — what `_parse_field_type` extracts from a well-formed declarator: the pointer depth is the
                                     number of stars whatever blanks stand between them (`c13_star_spacing`; a blank between
                                     the stars used to lose a level — repaired in the library), the array dimensions are
-                                    the count text split at `][`, an empty dimension is accepted in the last place only.
+                                    the count text split at `][`, each without the white space around it (`c13_dimension_blanks`:
+                                    `a[ n ]` is `a[n]`, `a[ ]` is the null-terminated `a[]`), an empty dimension is accepted in
+                                    the last place only.
 
   Not proved: a printer / parser round trip `parseDecls (renderDecls ds) = ds` for whole declaration lists (the member loop
   of `_struct`, the enum member splitting); these paths are covered by the correspondence with the real parser only.
@@ -88,7 +90,7 @@ theorem c13_enum_type_words (more : List (List Char × List Char)) (w0 : List Ch
 theorem c13_declarator_of_lexeme (pre w : List Char) (bits : Option (List Char × List Char × List Char)) (cnt : Option (List Char))
     (hwf : (Lexeme.name pre w bits cnt).wf = true) :
     parseDeclarator (Lexeme.name pre w bits cnt).text =
-      let dims := match cnt with | some c => splitDims c | none => []
+      let dims := match cnt with | some c => (splitDims c).map strip | none => []
       if dims.dropLast.any (·.isEmpty) then .error .depthRequired
       else .ok ⟨stars pre, w, dims, bits.map fun t => digitsToNat t.2.2⟩ :=
   parseDeclarator_lexeme pre w bits cnt hwf
@@ -97,6 +99,14 @@ theorem c13_star_spacing (pre pre' w : List Char) (bits : Option (List Char × L
     (h : (Lexeme.name pre w bits cnt).wf = true) (h' : (Lexeme.name pre' w bits cnt).wf = true) (hs : stars pre = stars pre') :
     parseDeclarator (Lexeme.name pre w bits cnt).text = parseDeclarator (Lexeme.name pre' w bits cnt).text := by
   rw [parseDeclarator_lexeme pre w bits cnt h, parseDeclarator_lexeme pre' w bits cnt h', hs]
+
+/-- blanks inside array brackets, around the count text, do not change the declarator: `a[ n ]` is `a[n]`, `a[ ]` is `a[]` -/
+theorem c13_dimension_blanks (pre w a t b : List Char) (bits : Option (List Char × List Char × List Char))
+    (h : (Lexeme.name pre w bits (some t)).wf = true) (h' : (Lexeme.name pre w bits (some (a ++ t ++ b))).wf = true)
+    (ha : blank a = true) (hb : blank b = true) (ht : ∀ c ∈ t, c ≠ ']') :
+    parseDeclarator (Lexeme.name pre w bits (some (a ++ t ++ b))).text = parseDeclarator (Lexeme.name pre w bits (some t)).text := by
+  rw [parseDeclarator_lexeme pre w bits _ h, parseDeclarator_lexeme pre w bits _ h']
+  simp only [dims_pad a t b ha hb ht]
 
 theorem closed_newlines : ∀ (l : List Char), (∀ c ∈ l, c = '\n') → Closed l l
   | [], _ => .nil
@@ -222,6 +232,10 @@ example : parseDecls (S "flag  F\n:\tunsigned \n long\t\tlong\n{ X = 1, Y }\n;")
 example : parseDeclarator (S "* *p[2][3]") = .ok ⟨2, S "p", [S "2", S "3"], none⟩ ∧
           parseDeclarator (S "**p[2][3]") = parseDeclarator (S "*\n*  p[2][3]") := by
   decide +kernel
+-- blanks inside brackets: `a[ ]` is `a[]`, `a[\t2 ][ 3 ]` is `a[2][3]`; a blank-only dimension in front of another one is refused
+example : parseDeclarator (S "a[ ]") = .ok ⟨0, S "a", [[]], none⟩ ∧ parseDeclarator (S "a[\t2 ][ 3 ]") = parseDeclarator (S "a[2][3]") ∧
+          parseDeclarator (S "a[ ][2]") = .error .depthRequired := by
+  decide +kernel
 -- (6) known finding F20: a newline inside an enum member changes the member list
 example : (parseDecls (S "enum E { A = 1, B, C = 7 };")).1.map encDecl = ["(enum \"E\" \"uint32\" [(\"A\" \"1\")(\"B\")(\"C\" \"7\")])"] ∧
           (parseDecls (S "enum E { A = 1, B, C\n = 7 };")).1.map encDecl = ["(enum \"E\" \"uint32\" [(\"A\" \"1\")(\"B\")(\"C\")])"] := by
@@ -243,3 +257,4 @@ end Cstruct.DefParser.C13
 #print axioms Cstruct.DefParser.C13.c13_declarator_of_lexeme
 #print axioms Cstruct.DefParser.C13.c13_star_spacing
 #print axioms Cstruct.DefParser.C13.c13_enum_type_words
+#print axioms Cstruct.DefParser.C13.c13_dimension_blanks
